@@ -1,4 +1,5 @@
 import Req.Lemmas.C02H1Head
+import Req.Lemmas.C02H1Msg
 /-!
 C02 — `readTransfer` (C04's model, `Req.H1.readTransfer`) on the header map of an
 origin-written HTTP/1.1 head, the status line, `parseHead`, and the 1xx loop `parseFinalHead`.
@@ -515,5 +516,45 @@ theorem ohead_ok_of_bool (o : OHead) (h : oheadOKb o = true) : o.OK := by
     rw [this] at h4
     simp at h4
   · exact fun f hf => wfield_ok_of_bool f (List.all_eq_true.mp h5 f hf)
+
+end Req.C02
+
+namespace Req.C02
+open Req.Proto Req.Ascii Req.H1
+
+/-- The lines of a head as `ReadSlice('\n')` sees them (without the final LF). -/
+def OHead.lines (o : OHead) : List Bytes :=
+  (statusWire o.d1 o.d2 o.d3 o.reason ++ [13]) :: ((o.fs.map fun f => f.line ++ [13]) ++ [[13]])
+
+theorem OHead.wire_lines (o : OHead) : o.wire = linesWire o.lines := by
+  have hb : ∀ fs : List WField, blockWire fs = linesWire ((fs.map fun f => f.line ++ [13]) ++ [[13]]) := by
+    intro fs
+    induction fs with
+    | nil => simp [blockWire, linesWire]
+    | cons f fs ih =>
+      rw [blockWire_cons, ih]
+      simp [linesWire, List.append_assoc]
+  unfold OHead.wire OHead.lines
+  rw [hb]
+  simp [linesWire, List.append_assoc]
+
+theorem OHead.lines_no_lf (o : OHead) (ho : o.OK) : ∀ l ∈ o.lines, (10 : UInt8) ∉ l := by
+  intro l hl
+  simp only [OHead.lines, List.mem_cons, List.mem_append, List.mem_map, List.mem_nil_iff, or_false] at hl
+  rcases hl with rfl | ⟨f, hf, rfl⟩ | rfl
+  · intro hm
+    simp only [List.mem_append, List.mem_singleton] at hm
+    rcases hm with hm | hm
+    · exact statusWire_no_lf o ho hm
+    · cases hm
+  · intro hm
+    simp only [List.mem_append, List.mem_singleton] at hm
+    rcases hm with hm | hm
+    · exact line_no_lf f (ho.2.2.2.2 f hf) hm
+    · cases hm
+  · decide
+
+theorem linesWire_append (a b : List Bytes) : linesWire (a ++ b) = linesWire a ++ linesWire b := by
+  simp [linesWire]
 
 end Req.C02
